@@ -133,6 +133,7 @@ type PathResult struct {
 	ModelHits   int               `json:"model_hits,omitempty"`
 	MergeAborts int               `json:"merge_aborts,omitempty"`
 	Outputs     map[string]string `json:"outputs,omitempty"`
+	Funcs       map[*ssa.Function]int `json:"-"`
 }
 
 type HarnessRun struct {
@@ -256,6 +257,12 @@ func (w *Worker) Explore(h *HarnessRun) *HarnessResult {
 			lazy[s] = true
 		}
 		hr.Exports = append(hr.Exports, pr.Exports...)
+		for fn, n := range pr.Funcs {
+			if name := w.eng.encodedName(fn); name != "" {
+				hr.Funcs[name] += n
+			}
+		}
+		pr.Funcs = nil
 		viol := false
 		for _, a := range pr.Asserts {
 			switch a.Status {
@@ -345,6 +352,7 @@ func (w *Worker) runPath(h *HarnessRun, prefix []choice) (pr *PathResult, trace 
 		maxSteps:  h.MaxSteps,
 		h:         h,
 		res:       &PathResult{Choices: map[string]int{}},
+		funcs:     map[*ssa.Function]int{},
 	}
 	x.trackWrite = false
 	pr = x.res
@@ -355,6 +363,7 @@ func (w *Worker) runPath(h *HarnessRun, prefix []choice) (pr *PathResult, trace 
 		}
 		pr.Steps = x.steps
 		pr.Notes = x.notes
+		pr.Funcs = x.funcs
 		if r := recover(); r != nil {
 			switch e := r.(type) {
 			case pathEnd:
@@ -447,4 +456,26 @@ func (e *Engine) SourceFileOf(fn *ssa.Function) string {
 		return p.Filename
 	}
 	return rel
+}
+
+// encodedName returns "pkg.Func (file)" for functions of the repository under test whose real SSA was interpreted
+// (harness functions and generated verification files are left out); "" otherwise.
+func (e *Engine) encodedName(fn *ssa.Function) string {
+	var pkg *ssa.Package
+	if fn.Pkg != nil {
+		pkg = fn.Pkg
+	} else if fn.Origin() != nil {
+		pkg = fn.Origin().Pkg
+	} else if fn.Parent() != nil {
+		pkg = fn.Parent().Pkg
+	}
+	if pkg == nil || !strings.HasPrefix(pkg.Pkg.Path(), repoModule) {
+		return ""
+	}
+	pos := e.prog.Fset.Position(fn.Pos())
+	base := filepath.Base(pos.Filename)
+	if strings.HasPrefix(base, "zz_verif") || strings.Contains(pkg.Pkg.Path(), "zzverifnd") || pos.Filename == "" {
+		return ""
+	}
+	return strings.ReplaceAll(fn.String(), repoModule+"/", "") + " [" + strings.TrimPrefix(strings.TrimPrefix(pos.Filename, e.repoDir), "/") + "]"
 }
